@@ -59,7 +59,7 @@ func retKind(v ssa.Value) string {
 func corrIdx(fn *ssa.Function) int {
 	res := fn.Signature.Results()
 	for i := 0; i < res.Len(); i++ {
-		if res.At(i).Type().String() == "bool" {
+		if b, ok := res.At(i).Type().Underlying().(*types.Basic); ok && b.Kind() == types.Bool {
 			return i
 		}
 	}
